@@ -255,6 +255,36 @@ fn compile_source(
     })
 }
 
+/// JSON of a bytecode for the Python side.  Everything goes through the repository's own serde
+/// form except the binary constants, which are written out byte by byte from memory: the
+/// symbolic executor must see the bytes the executor sees, whatever the serialised form does.
+fn bytecode_json(bc: &Bytecode) -> J {
+    let mut j = serde_json::to_value(bc).unwrap();
+    let consts: Vec<J> = bc
+        .constants
+        .iter()
+        .map(|c| match c {
+            Constant::Binary(b) => json!({"bin": b}),
+            other => serde_json::to_value(other).unwrap(),
+        })
+        .collect();
+    if let Some(o) = j.as_object_mut() {
+        o.insert("constants".to_string(), J::Array(consts));
+    }
+    j
+}
+
+/// In-memory equality of two bytecodes, table by table (not of their serialised forms).
+fn bytecode_same(a: &Bytecode, b: &Bytecode) -> bool {
+    a.constants == b.constants
+        && a.functions == b.functions
+        && a.tuples == b.tuples
+        && a.types == b.types
+        && a.builtins == b.builtins
+        && a.entry == b.entry
+        && a.resources == b.resources
+}
+
 fn compat_json(bc: &Bytecode) -> J {
     let input = CompatibilityInput {
         types: &bc.types,
@@ -567,7 +597,7 @@ fn handle(st: &mut State, req: &J) -> J {
                     let want_bc = req.get("dump").and_then(|d| d.as_bool()).unwrap_or(true);
                     let compat = if want_bc { compat_json(&out.bytecode) } else { J::Null };
                     let bcj = if want_bc {
-                        serde_json::to_value(&out.bytecode).unwrap()
+                        bytecode_json(&out.bytecode)
                     } else {
                         J::Null
                     };
@@ -592,7 +622,7 @@ fn handle(st: &mut State, req: &J) -> J {
         "dump" => {
             let h = match get_h(st, req) { Ok(h) => h, Err(e) => return e };
             let bc = &st.progs[h].bytecode;
-            json!({"ok": true, "bytecode": serde_json::to_value(bc).unwrap(), "compat": compat_json(bc)})
+            json!({"ok": true, "bytecode": bytecode_json(bc), "compat": compat_json(bc)})
         }
         "run" => {
             let h = match get_h(st, req) { Ok(h) => h, Err(e) => return e };
@@ -740,7 +770,7 @@ fn handle(st: &mut State, req: &J) -> J {
             let mut bc2 = bc;
             bc2.entry = Some(entry);
             let shaken = quiver_core::optimisation::tree_shake(bc2, entry);
-            let j = serde_json::to_value(&shaken).unwrap();
+            let j = bytecode_json(&shaken);
             let compat = compat_json(&shaken);
             st.progs.push(Loaded { bytecode: shaken });
             json!({"ok": true, "h": st.progs.len() - 1, "bytecode": j, "compat": compat})
@@ -751,7 +781,7 @@ fn handle(st: &mut State, req: &J) -> J {
             let s = serde_json::to_string_pretty(bc).unwrap();
             match serde_json::from_str::<Bytecode>(&s) {
                 Ok(bc2) => {
-                    let same = serde_json::to_value(bc).unwrap() == serde_json::to_value(&bc2).unwrap();
+                    let same = bytecode_same(bc, &bc2);
                     st.progs.push(Loaded { bytecode: bc2 });
                     json!({"ok": true, "h": st.progs.len() - 1, "same": same})
                 }
@@ -791,7 +821,7 @@ fn handle(st: &mut State, req: &J) -> J {
             // the last registered wrapper is found by the caller through `entry_of`.
             let merged = program_to_bytecode(env.get_program(), None);
             let n_updates = updates.lock().unwrap().len();
-            let j = serde_json::to_value(&merged).unwrap();
+            let j = bytecode_json(&merged);
             // The tables a worker really ends up with: the updates the real Environment sent,
             // applied in order to one real Executor, read back through the verification hook.
             // (Without the hook: recomputed from the merged bytecode, as before.)
